@@ -108,28 +108,20 @@ Theorem C01_no_float_fields : forall gmn fdn pf, get_field gmn fdn = Some pf ->
 Proof. exact no_float_fields. Qed.
 Print Assumptions C01_validate_float_hole_refuted.
 
-(* ---- non-vacuity *)
-(* a valid activity file: file_id (type 4), a record definition (timestamp uint32, heart_rate uint8) and one record;
-   12-byte header, file CRC computed by the model's CRC *)
-Definition ex_body : list N :=
-  [12; 32; 0x47; 8; 29; 0; 0; 0; 46; 70; 73; 84;
-   0x40; 0; 0; 0; 0; 1; 0; 1; 0;   0; 4;
-   0x41; 0; 1; 0; 20; 2; 253; 4; 0x86; 3; 1; 2;   1; 0; 0; 0; 0x40; 150].
-Definition ex_stream : list N :=
-  let c := crc_sum16 (crc_write crc_new ex_body) in ex_body ++ [c mod 256; c / 256].
-(* one-byte reads with an empty read in between, EOF delivered with the last byte *)
-Definition ex_reader : reader := mk_reader ex_stream [1; 0; 1; 3; 1; 1; 2; 1; 1; 1; 7; 1]%nat TEOF true 0.
-
+(* ---- non-vacuity (definitions in Proofs/C01Extra.v) *)
+(* ex_stream: a valid activity file: file_id (type 4), a record definition (timestamp uint32, heart_rate uint8) and one
+   record; 12-byte header, file CRC computed by the model's CRC. ex_reader delivers it in small reads with an empty
+   read in between, EOF together with the last byte. Decode succeeds and consumes all of it. *)
 Example C01_example_decode : exists r,
   entry_Decode no_opts g_init ex_reader 100 = TDone r /\ dr_err r = None /\
   (rd_pos (dr_rd r) = List.length ex_stream)%nat.
-Proof. eexists. split; [vm_compute; reflexivity|]. split; reflexivity. Qed.
+Proof. exact example_decode. Qed.
 
 (* the hypotheses of the main theorem hold for it *)
 Example C01_example_hyps :
   Forall (fun b => b < 256) (rd_data ex_reader) /\
   (List.length (rd_data ex_reader) + List.length (rd_sched ex_reader) < 100)%nat.
-Proof. split; [repeat constructor|vm_compute; repeat constructor]. Qed.
+Proof. exact example_hyps. Qed.
 
 (* an accepted definition narrower than the profile type: uint16 (size 2) for a uint32 profile field is a safe cell;
    a size below the base type size is rejected *)
@@ -137,4 +129,4 @@ Example C01_example_cells :
   validate_cell (Some (false, base_uint32)) base_uint16 2 = VOk /\
   store_safe kind_native false base_uint32 base_uint16 2 = true /\
   validate_cell (Some (false, base_uint32)) base_uint32 3 = VErr.
-Proof. vm_compute. repeat split. Qed.
+Proof. exact example_cells. Qed.
